@@ -173,7 +173,7 @@ proof fn lemma_mm_min_attained(mb: int, adj: bool, wb: int, db: int, wa: int, da
     } else {
         let v = mm_delta_m(mb, adj, (n - 1) / 2, (n - 1) % 2 == 1, wb, db, wa, da);
         let j = lemma_mm_min_attained(mb, adj, wb, db, wa, da, n - 1);
-        if v < mm_min(mb, adj, wb, db, wa, da, n - 1) { n - 1 } else { j }
+        if v < mm_minmax(mb, adj, wb, db, wa, da, n - 1).0 { n - 1 } else { j }
     }
 }
 
@@ -190,7 +190,7 @@ proof fn lemma_mm_max_attained(mb: int, adj: bool, wb: int, db: int, wa: int, da
     } else {
         let v = mm_delta_m(mb, adj, (n - 1) / 2, (n - 1) % 2 == 1, wb, db, wa, da);
         let j = lemma_mm_max_attained(mb, adj, wb, db, wa, da, n - 1);
-        if v > mm_max(mb, adj, wb, db, wa, da, n - 1) { n - 1 } else { j }
+        if v > mm_minmax(mb, adj, wb, db, wa, da, n - 1).1 { n - 1 } else { j }
     }
 }
 
